@@ -94,6 +94,14 @@ Definition short_writer (k : nat) : writer := fun hist p =>
   let off := offered hist in
   if ((off <=? k) && (k <? off + length p))%nat then (k - off, true)%nat else (length p, false).
 
+(* eager failure at offset k (k >= 1): the call that stores the k-th byte is
+   accepted IN FULL and reports an error together with the complete count -
+   which an io.Writer may do ("quota reached" noticed while completing the
+   request); every other call is accepted in full without error *)
+Definition eager_writer (k : nat) : writer := fun hist p =>
+  let off := offered hist in
+  (length p, ((off <? k) && (k <=? off + length p))%nat).
+
 (* ---- the same loop on lengths only (for enumerating every fault point of a
    large file: the two writers above look at lengths only) ---- *)
 
@@ -135,6 +143,9 @@ Definition budget_lwriter (k : N) : lwriter := fun hist len =>
 Definition short_lwriter (k : N) : lwriter := fun hist len =>
   let off := nsumN hist in
   if ((off <=? k) && (k <? off + len))%N then ((k - off)%N, true) else (len, false).
+
+Definition eager_lwriter (k : N) : lwriter := fun hist len =>
+  let off := nsumN hist in (len, ((off <? k) && (k <=? off + len))%N).
 
 (* summary of one run: (n, err, number of calls, calls made after the first error) *)
 Definition lsummary (r : lresult) : N * bool * N * N :=
